@@ -26,6 +26,8 @@ type ScriptConfig struct {
 	// and D2 (unterminated trailing let).
 	AllowD   bool
 	LongLine bool
+	// Big marks a script with many statements.
+	Big bool
 }
 
 // DrawScriptConfig draws a swarm configuration.
@@ -40,6 +42,11 @@ func DrawScriptConfig(r *prng.Rand) ScriptConfig {
 	}
 	if r.Chance(1, 40) {
 		c.MaxStmts = 0
+	}
+	if r.Chance(1, 25) {
+		// a big script: input and output cross the buffer sizes a tool is likely to use (4 KiB, 64 KiB)
+		c.MaxStmts = r.Range(20, 90)
+		c.Big = true
 	}
 	return c
 }
